@@ -1365,6 +1365,10 @@ struct SrcCfg {
 	hostile_material: bool,
 	/// big world whose archive header commits to EXACTLY 1024 outputs (the last bitmap chunk is full)
 	boundary: bool,
+	/// (C01, forged source) kind of value-creating / unproven element the chain's HEADERS commit to: 0 = the genesis
+	/// output (leaf 0) carries another output's range proof, 1 = two range proofs swapped inside block 5, 2 = a kernel
+	/// of block 5 carries another kernel's signature. The forged block is installed behind the pipeline.
+	forged: Option<u8>,
 }
 
 impl SrcCfg {
@@ -1446,6 +1450,109 @@ fn build_world(seed: u64, n_blocks: u64, style: u64) -> WorldB {
 		txs_by_h.push(txs);
 	}
 	WorldB { h, hashes, txs: txs_by_h }
+}
+
+
+/// (C01) As `build_world`, but the chain's headers commit to something no block-by-block validation would have let
+/// through (see `SrcCfg::forged`). Returns the world and the height of the block that must be installed behind the
+/// pipeline (None when the genesis block itself carries the bad proof).
+fn build_forged_world(seed: u64, n_blocks: u64, kind: u8) -> (WorldB, Option<u64>) {
+	use vcommon::ledger::RefLedger;
+	let mut h = Hist::new(seed, false);
+	let mut p = Prng::new(seed ^ 0xF0_46ED);
+	const F: u64 = 5;
+	if kind == 0 {
+		// leaf 0 of the output and range-proof MMRs: the genesis output with a proof made for another commitment
+		let other = h.world.output(grin_core::consensus::reward(0), &h.world.key(4_000_001));
+		let mut g = h.genesis.clone();
+		g.body.outputs[0].proof = other.proof;
+		h.ledger = RefLedger::new(&g);
+		h.genesis = g;
+	}
+	let mut hashes = vec![h.genesis.hash()];
+	let mut txs_by_h: Vec<Vec<Transaction>> = vec![vec![]];
+	let mut forged_at = None;
+	for height in 1..=n_blocks {
+		let tip = *hashes.last().unwrap();
+		let mut txs = vec![];
+		let force_tx = kind != 0 && height == F;
+		if force_tx || p.chance(600, 1000) {
+			let mut avail = coins_by_age(&mut h, &tip);
+			if kind == 0 {
+				// the genesis output must still be unspent at the archive header
+				let gc = h.genesis.body.outputs[0].commitment();
+				avail.retain(|x| x.1.commit != gc);
+			}
+			if !avail.is_empty() {
+				let c = avail.remove(p.usize_below(avail.len().min(3))).1;
+				txs.push(h.spend_tx(&[c], 2, None));
+			}
+		}
+		let gb = h.add_block(&tip, &txs, "honest", vec![]);
+		assert!(gb.verdict.is_ok());
+		if force_tx && !txs.is_empty() {
+			let mut b = gb.block.clone();
+			let mut ok = false;
+			if kind == 1 && b.body.outputs.len() >= 2 {
+				let p0 = b.body.outputs[0].proof;
+				b.body.outputs[0].proof = b.body.outputs[1].proof;
+				b.body.outputs[1].proof = p0;
+				ok = true;
+			} else if kind == 2 && b.body.kernels.len() >= 2 {
+				let s0 = b.body.kernels[0].excess_sig;
+				b.body.kernels[0].excess_sig = b.body.kernels[1].excess_sig;
+				b.body.kernels[1].excess_sig = s0;
+				ok = true;
+			}
+			if ok {
+				// the headers commit to exactly this body; the block gets an identity (proof of work) of its own
+				h.ledger.commit_header(&mut b);
+				vcommon::world::skip_pow_proof(&mut b.header, &mut p);
+				h.ledger.add(&b);
+				// its outputs stay unspent: the archive header's state must still hold them
+				for o in b.body.outputs.iter() {
+					h.coins.remove(&o.commitment().0.to_vec());
+				}
+				let last = h.blocks.last_mut().unwrap();
+				last.hash = b.hash();
+				last.block = b.clone();
+				forged_at = Some(height);
+				hashes.push(b.hash());
+				txs_by_h.push(txs);
+				continue;
+			}
+		}
+		hashes.push(gb.hash);
+		txs_by_h.push(txs);
+	}
+	(WorldB { h, hashes, txs: txs_by_h }, forged_at)
+}
+
+/// What a node does with a state it did not validate block by block (state sync): extension applied, block, running
+/// sums and body head stored — without `pipe::process_block` judging the block.
+fn install_behind_pipeline(chain: &Chain, b: &grin_core::core::Block) -> Result<(), String> {
+	use grin_chain::txhashset;
+	use grin_core::core::committed::Committed;
+	chain.process_block_header(&b.header, OPTS).map_err(|e| format!("header: {:?}", e))?;
+	let store = chain.store();
+	let header_pmmr = chain.header_pmmr();
+	let txhashset = chain.txhashset();
+	let mut header_pmmr = header_pmmr.write();
+	let mut txhashset = txhashset.write();
+	let mut batch = store.batch().map_err(|e| format!("{:?}", e))?;
+	let prev_sums = batch.get_block_sums(&b.header.prev_hash).map_err(|e| format!("{:?}", e))?;
+	let (utxo_sum, kernel_sum) = (prev_sums, b as &dyn Committed)
+		.verify_kernel_sums(b.header.overage(), b.header.total_kernel_offset())
+		.map_err(|e| format!("sums: {:?}", e))?;
+	txhashset::extending(&mut header_pmmr, &mut txhashset, &mut batch, |ext, batch| ext.extension.apply_block(b, ext.header_extension, batch))
+		.map_err(|e| format!("apply_block: {:?}", e))?;
+	batch.save_block(b).map_err(|e| format!("{:?}", e))?;
+	batch
+		.save_block_sums(&b.hash(), grin_core::core::block_sums::BlockSums { utxo_sum, kernel_sum })
+		.map_err(|e| format!("{:?}", e))?;
+	batch.save_body_head(&grin_chain::Tip::from_header(&b.header)).map_err(|e| format!("{:?}", e))?;
+	batch.commit().map_err(|e| format!("{:?}", e))?;
+	Ok(())
 }
 
 /// Big world: block i >= 5 spends the coinbase of block i-4 into 9 outputs, block i >= 12
@@ -1662,7 +1769,19 @@ fn chunks_of(idx: &[u64]) -> Vec<BitmapChunk> {
 fn build_source(run: &Run, sc: &Scratch, cfg: &SrcCfg) -> Result<Source, String> {
 	let t0 = Instant::now();
 	let wseed = run.seed ^ (cfg.shard as u64 + 1).wrapping_mul(0xC16_0001);
-	let mut w = if cfg.big { build_big_world(wseed, cfg.n_blocks, cfg.boundary) } else { build_world(wseed, cfg.n_blocks, cfg.shard as u64) };
+	let mut forged_at: Option<u64> = None;
+	let mut w = if let Some(k) = cfg.forged {
+		let (w, f) = build_forged_world(wseed, cfg.n_blocks, k);
+		forged_at = f;
+		if k != 0 && f.is_none() {
+			return Err("forged world: block 5 could not carry the forgery".into());
+		}
+		w
+	} else if cfg.big {
+		build_big_world(wseed, cfg.n_blocks, cfg.boundary)
+	} else {
+		build_world(wseed, cfg.n_blocks, cfg.shard as u64)
+	};
 	run.count("b.world_build_ms", t0.elapsed().as_millis() as u64);
 	let a = cfg.archive_height();
 	let dir = sc.sub(&format!("src{}/db", cfg.shard));
@@ -1676,7 +1795,11 @@ fn build_source(run: &Run, sc: &Scratch, cfg: &SrcCfg) -> Result<Source, String>
 	let t1 = Instant::now();
 	for i in 1..=cfg.n_blocks {
 		let b = w.h.blocks[(i - 1) as usize].block.clone();
-		chain.process_block(b, OPTS).map_err(|e| format!("source rejected block {}: {:?}", i, e))?;
+		if Some(i) == forged_at {
+			install_behind_pipeline(&chain, &b)?;
+		} else {
+			chain.process_block(b, OPTS).map_err(|e| format!("source rejected block {}: {:?}", i, e))?;
+		}
 		if i == a {
 			let s = snapshot(&chain, &commits)?;
 			let st = w.h.state(&w.hashes[a as usize]);
@@ -3024,22 +3147,22 @@ fn src_cfg(run: &Run, shard: usize, san: bool) -> SrcCfg {
 	let hsel = [(0u8, 2u8, 2u8, 2u8), (0, 3, 2, 4), (0, 2, 4, 3), (0, 4, 3, 2), (0, 3, 3, 3), (0, 2, 3, 2)];
 	let hts = hsel[(shard + (run.seed % 6) as usize) % hsel.len()];
 	if san {
-		return SrcCfg { shard, n_blocks: 45, compact_at: None, hts, big: false, hostile_material: false, boundary: false };
+		return SrcCfg { shard, n_blocks: 45, compact_at: None, hts, big: false, hostile_material: false, boundary: false, forged: None };
 	}
 	let compacted = shard % 13 == 0 || (thorough && shard % 13 == 1);
 	let big = thorough && shard == 3;
 	if big {
 		// archive header at 110: 1 + 110 + 9*106 + 99 = 1164 outputs (two bitmap chunks)
-		return SrcCfg { shard, n_blocks: 131, compact_at: None, hts: (0, 6, 5, 6), big: true, hostile_material: false, boundary: false };
+		return SrcCfg { shard, n_blocks: 131, compact_at: None, hts: (0, 6, 5, 6), big: true, hostile_material: false, boundary: false, forged: None };
 	}
 	if shard == 5 {
 		// archive header at 110: 1 + 110 + (72*8 + 34*7) + 99 = 1024 outputs exactly
-		return SrcCfg { shard, n_blocks: 131, compact_at: None, hts: (0, 6, 5, 6), big: true, hostile_material: false, boundary: true };
+		return SrcCfg { shard, n_blocks: 131, compact_at: None, hts: (0, 6, 5, 6), big: true, hostile_material: false, boundary: true, forged: None };
 	}
 	if compacted {
 		let hc = 82 + p.below(8);
 		let n = hc + 9 + p.below(6);
-		return SrcCfg { shard, n_blocks: n, compact_at: Some(hc), hts, big: false, hostile_material: shard % 2 == 1, boundary: false };
+		return SrcCfg { shard, n_blocks: n, compact_at: Some(hc), hts, big: false, hostile_material: shard % 2 == 1, boundary: false, forged: None };
 	}
 	SrcCfg {
 		shard,
@@ -3049,6 +3172,7 @@ fn src_cfg(run: &Run, shard: usize, san: bool) -> SrcCfg {
 		big: false,
 		hostile_material: shard % 2 == 1,
 		boundary: false,
+		forged: None,
 	}
 }
 
@@ -3266,10 +3390,173 @@ fn chain_source(run: &Run, shard: usize, san: bool, budget: f64) {
 
 // ===================================================================== main
 
+// ------------------------------------------------------------------ (C01) forged source: whole-state acceptance through PIBD
+
+const FORGED_KINDS: [&str; 3] = ["genesis_output_with_foreign_range_proof", "range_proofs_swapped_inside_a_block", "kernel_signatures_swapped_inside_a_block"];
+
+/// Run under property C01 (`--forged-for-c01`): a source whose HEADERS commit to an unproven output / unsigned kernel (the
+/// block was never judged by the pipeline) serves its state through Segmenter -> Desegmenter. Every segment is honest with
+/// respect to the archive header's roots, so nothing can be refused on the way; the receiver's `validate_complete_state`
+/// is the only place where the state can be refused, and it must refuse it. Control: the same world without the forgery
+/// finalises (run by C16 itself), and `Chain::validate(false)` refuses the forged source.
+fn forged_source(run: &Run, id: usize) {
+	let kind = (id % 3) as u8;
+	let kname = FORGED_KINDS[kind as usize];
+	let sc = Scratch::new(&format!("c16f{}", id));
+	let mut p = Prng::new(run.seed ^ (id as u64 + 11).wrapping_mul(0xF0_46ED));
+	let hsel = [(0u8, 2u8, 2u8, 2u8), (0, 3, 2, 4), (0, 11, 11, 11), (0, 4, 3, 2)];
+	let cfg = SrcCfg {
+		shard: 1000 + id,
+		n_blocks: 45 + p.below(16),
+		compact_at: None,
+		hts: hsel[id / 3 % hsel.len()],
+		big: false,
+		hostile_material: false,
+		boundary: false,
+		forged: Some(kind),
+	};
+	let replay = json!({"part": "forged_source", "id": id, "kind": kname, "blocks": cfg.n_blocks, "heights": format!("{:?}", cfg.hts),
+		"reproduce": format!("c16 --forged-for-c01 --tier {} --seed {} --forged-source {}", run.tier.name(), run.seed, id)});
+	let src = match build_source(run, &sc, &cfg) {
+		Ok(s) => s,
+		Err(e) => {
+			run.inconclusive(&format!("forged source {} ({}) could not be built: {}", id, kname, e));
+			return;
+		}
+	};
+	run.count("forged.sources", 1);
+	// control: wholesale validation of the source itself
+	match catch(|| src.chain.validate(false)) {
+		Ok(Err(_)) => run.count("forged.source_refused_by_full_validation", 1),
+		Ok(Ok(())) => {
+			run.violation(
+				&format!("world=pibd;forged_state;kind={};path=validate_false;event=accepted", kname),
+				"Chain::validate(false) accepts a state whose headers commit to an unproven output / unsigned kernel",
+				replay.clone(),
+			);
+			return;
+		}
+		Err(pn) => {
+			run.violation(&format!("world=pibd;forged_state;kind={};path=validate_false;event=panic@{}", kname, rel_loc(&pn.location)), &pn.message, replay.clone());
+			return;
+		}
+	}
+	let set = match fetch_segments(&src.chain, &src.archive.hash(), src.n_out, src.n_kern, cfg.hts) {
+		Ok(s) => s,
+		Err(e) => {
+			run.inconclusive(&format!("forged source {}: segments not available: {}", id, e));
+			return;
+		}
+	};
+	let rx = match new_receiver(&sc, "rxf", &src, &mut p) {
+		Ok(r) => r,
+		Err(e) => {
+			run.inconclusive(&format!("forged source {}: receiver setup: {}", id, e));
+			return;
+		}
+	};
+	let dlock = match get_desegmenter(run, &src, &rx) {
+		Some(d) => d,
+		None => {
+			rx.close();
+			return;
+		}
+	};
+	let mut guard = dlock.write();
+	let d = match guard.as_mut() {
+		Some(d) => d,
+		None => {
+			run.inconclusive("desegmenter slot empty");
+			drop(guard);
+			rx.close();
+			return;
+		}
+	};
+	d.verif_set_segment_heights(cfg.hts.0, cfg.hts.1, cfg.hts.2, cfg.hts.3);
+	let pool = HostilePool::default();
+	let plan = Plan { order: ORDERS[id % 3], hostile: false, early_tree_segments: false, tip_phase: false, full_validate: false };
+	let mut dl = Delivery {
+		run,
+		src: &src,
+		set: &set,
+		pool: &pool,
+		sig: format!("part=forged;kind={}", kname),
+		honest_refused_after_bitmap: 0,
+		hostile_delivered: 0,
+		hostile_refused: 0,
+		hostile_accepted: vec![],
+		apply_errors: vec![],
+		panics: vec![],
+	};
+	let out = assemble(&mut dl, &rx, d, &plan, false, &mut p);
+	match out {
+		Assembly::Finalised => {
+			run.eval(&format!("forged;kind={};hts={:?};outcome=finalised", kname, cfg.hts), true);
+			run.violation(
+				&format!("world=pibd;forged_state;kind={};path=pibd;event=finalised", kname),
+				&format!(
+					"state sync from segments finalised (validate_complete_state Ok) a state whose headers commit to {}: value can be created by whoever serves such a chain to a syncing node; Chain::validate(false) refuses the very same state",
+					kname.replace('_', " ")
+				),
+				replay.clone(),
+			);
+		}
+		Assembly::Refused(why) => {
+			let wclass = why.split(|c| c == ',' || c == '=').next().unwrap_or("").to_string();
+			run.eval(&format!("forged;kind={};hts={:?};outcome=refused:{}", kname, cfg.hts, wclass), true);
+			if wclass.starts_with("validate_complete_state") {
+				run.count("forged.states_refused_by_validate_complete_state", 1);
+				run.count(&format!("forged.refused.{}", kname), 1);
+			} else {
+				// refused earlier than it could legitimately be: the segments are honest with respect to the header roots
+				run.inconclusive(&format!("forged source {} ({}): assembly ended before the final validation: {}", id, kname, why));
+			}
+		}
+	}
+	drop(guard);
+	rx.close();
+}
+
 fn main() {
-	let run = Run::from_env("C16", "exploration");
+	let forged_mode = std::env::args().any(|a| a == "--forged-for-c01");
+	let run = Run::from_env(if forged_mode { "C01" } else { "C16" }, "exploration");
 	init_globals(true);
 	let san = run.args.iter().any(|a| a == "--san");
+	if forged_mode {
+		let n_sources: usize = run.tier.pick(12, 60);
+		if let Some((i, n)) = run.worker_shard() {
+			init_thread(true);
+			let only: Option<usize> = run.arg_value("--forged-source").and_then(|x| x.parse().ok());
+			for id in 0..n_sources {
+				if id % n != i || only.map(|o| o != id).unwrap_or(false) {
+					continue;
+				}
+				forged_source(&run, id);
+			}
+			run.finish_worker();
+		}
+		run.set_rule(
+			"forged sources: real source chains (45-60 blocks) whose HEADERS commit to something block-by-block validation would never \
+			 have let through — the genesis output (leaf 0 of the output / range-proof MMRs) carrying another output's range proof, two range \
+			 proofs swapped inside block 5, two kernel signatures swapped inside block 5 (the block installed behind the pipeline, its \
+			 outputs unspent at the archive header) — served through Chain::segmenter() at default and lowered segment heights to a \
+			 headers-only receiver (Chain::desegmenter), in three arrival orders. Every segment is honest with respect to the header roots; \
+			 validate_complete_state must refuse the state (as Chain::validate(false) refuses it on the source). Distinct = (kind, heights, outcome).",
+		);
+		run.assume("the forged block is installed the way a received state is (extension + block + running sums + body head), without pipe::process_block");
+		let only = run.arg_value("--forged-source").is_some();
+		run.spawn_workers(if only { 1 } else { n_sources.min(12) }, &[], run.tier.pick(400, 1500));
+		if !only {
+			run.require("forged.sources", run.counter("forged.sources"), run.tier.pick(9, 45));
+			run.require("forged.source_refused_by_full_validation", run.counter("forged.source_refused_by_full_validation"), run.tier.pick(9, 45));
+			if run.n_violations() == 0 {
+				for k in FORGED_KINDS {
+					run.require(&format!("forged.refused.{}", k), run.counter(&format!("forged.refused.{}", k)), run.tier.pick(2, 10));
+				}
+			}
+		}
+		run.finish();
+	}
 	if let Some((i, n)) = run.worker_shard() {
 		init_thread(true);
 		let n_store = if n <= 2 { 1 } else { 3 };
